@@ -38,7 +38,7 @@ class C06(Prop):
                    'the reflecting options and the crack+double-couple proposal are not modelled (defaults are off)']
     unproved = ['that NumPy delivers i.i.d. standard normal draws (the law of the redraw loop GIVEN i.i.d. draws is proved in Props/C06Law: '
                 'truncated-normal density truncTerm on the range); Kolmogorov-Smirnov tests of seeded draws against the truncated-normal CDF in this run',
-                'the joint law of a whole proposal as the product of the per-parameter laws (independence of disjoint stream segments) is not stated as a theorem']
+                'the strike factor of the joint law (Props/C06Joint) is stated as the pushed-forward mass of the wrapped normal, not expanded into a density']
     rule = ('shift / trans-dimensional proposals from states uniform in the domain with boundary values mixed in, widths log-uniform in '
             '(1e-3, 3 x max], streams of normal draws scaled by {1, 3, 10} so that redraw loops run; adaptation: every sequence of rate '
             'classes {0, 0.1, 0.4, 0.8, 1} up to length 3 (thorough: 6) plus random sequences up to length 14, single-try and '
